@@ -1011,32 +1011,32 @@ Lemma pavf_rep o n h r cols prev f :
   = print_range (print_arg_val_f f) (print_arr_f f) o (VRep n h :: r) cols prev.
 Proof. reflexivity. Qed.
 
-Lemma print_range_const o n a0 y0 cols prev t w c' :
+Lemma print_range_const fu o n a0 y0 cols prev t w c' :
   compress o = true -> 0 < n -> scalar a0 ->
   print_scalar o a0 (cols + len (print_d n ++ [120])) = Some (t, w, c') ->
-  print_arg_val o [VRep n 0; a0; VSpc y0] cols prev
+  print_arg_val_f (S (S fu)) o [VRep n 0; a0; VSpc y0] cols prev
   = Some ((print_d n ++ [120]) ++ t, len (print_d n ++ [120]) + w, c', false).
 Proof.
-  intros Hon Hn Hs Hp. unfold print_arg_val. rewrite pavf_rep. unfold print_range. cbv beta iota.
+  intros Hon Hn Hs Hp. rewrite pavf_rep. unfold print_range. cbv beta iota.
   rewrite Hon. replace (n =? 0) with false by lia. cbn [negb orb Z.eqb].
   assert (Hm : forall (A : Type) (x y : A), match a0 :: [VSpc y0] with VArr _ _ :: _ => x | _ => y end = y)
     by (intros; destruct a0; cbn in Hs; try contradiction; reflexivity).
-  rewrite Hm. rewrite (pav_scalar o a0 _ _ None 4 Hs), Hp. reflexivity.
+  rewrite Hm. rewrite (pav_scalar o a0 _ _ None fu Hs), Hp. reflexivity.
 Qed.
 
 Definition notconf (prev : option av) (k : ikind) (x : Z) : Prop :=
   match prev with None => True | Some p => av_type p <> av_type (mk k x) \/ p = mk k x end.
 
-Lemma print_range_delta o k d x n y cols prev last :
+Lemma print_range_delta fu o k d x n y cols prev last :
   compress o = true -> 2 <= n < 2 ^ 31 -> d <> 0 ->
   wr k (x + 1 * d) = x + d -> wr k (x + (n - 1) * d) = last ->
   exists sp t c',
     (sp = [32] \/ sp = nl4) /\
-    print_arg_val o [VRep n 1; mk k d; mk k x; VSpc y] cols prev = Some (t, len t, c', false) /\
+    print_arg_val_f (S (S fu)) o [VRep n 1; mk k d; mk k x; VSpc y] cols prev = Some (t, len t, c', false) /\
     (t = tail_text k x last sp /\ (d = 1 \/ d = -1) /\ notconf prev k x \/
      t = tok_k k x ++ [32] ++ tail_text k (x + d) last sp).
 Proof.
-  intros Hon Hn Hd0 Hsec Hlast. unfold print_arg_val. rewrite pavf_rep. unfold print_range. cbv beta iota.
+  intros Hon Hn Hd0 Hsec Hlast. rewrite pavf_rep. unfold print_range. cbv beta iota.
   rewrite Hon. replace (n =? 0) with false by lia. cbn [negb orb]. replace (1 =? 0) with false by reflexivity.
   cbn [negb]. rewrite pav_mk, !from_int_mk, !eq_mk.
   rewrite !range_arg_mk by lia. rewrite Hsec, Hlast.
@@ -1213,9 +1213,9 @@ Definition iter_text (p : option av) (its : list item) (t : list Z) : Prop :=
   | _ => False
   end.
 
-Lemma print_range_const_eq n a0 y cols prev :
+Lemma print_range_const_eq fu n a0 y cols prev :
   0 < n -> scalar a0 ->
-  print_arg_val o [VRep n 0; a0; VSpc y] cols prev =
+  print_arg_val_f (S (S fu)) o [VRep n 0; a0; VSpc y] cols prev =
   match print_scalar o a0 (cols + len (dec_nat n ++ [120])) with
   | Some (t, w, c') => Some ((dec_nat n ++ [120]) ++ t, len (dec_nat n ++ [120]) + w, c', false)
   | None => None end.
@@ -1223,11 +1223,11 @@ Proof.
   intros Hn Hs. assert (Ed : print_d n = dec_nat n) by (unfold print_d; now replace (n <? 0) with false by lia).
   destruct (print_scalar o a0 (cols + len (dec_nat n ++ [120]))) as [[[t w] c']|] eqn:E.
   - rewrite <- Ed in *. now apply print_range_const.
-  - unfold print_arg_val. rewrite pavf_rep. unfold print_range. cbv beta iota.
+  - rewrite pavf_rep. unfold print_range. cbv beta iota.
     rewrite Hon. replace (n =? 0) with false by lia. cbn [negb orb Z.eqb].
     assert (Hm : forall (A : Type) (x z : A), match a0 :: [VSpc y] with VArr _ _ :: _ => x | _ => z end = z)
       by (intros; destruct a0; cbn in Hs; try contradiction; reflexivity).
-    rewrite Hm. rewrite (pav_scalar o a0 _ _ None 4 Hs). rewrite Ed, E. reflexivity.
+    rewrite Hm. rewrite (pav_scalar o a0 _ _ None fu Hs). rewrite Ed, E. reflexivity.
 Qed.
 
 Definition first_notconf (prev : option av) (its : list item) : Prop :=
@@ -1236,10 +1236,10 @@ Definition first_notconf (prev : option av) (its : list item) : Prop :=
   | _ => True
   end.
 
-Lemma print_iter_sa a0 rest size prev t tmp cols cols1 bb cv :
+Lemma print_iter_sa fu a0 rest size prev t tmp cols cols1 bb cv :
   goodc o zf zd a0 -> Forall (goodca o zf zd) rest -> Z.of_nat (length (a0 :: rest)) < 2 ^ 31 ->
   convert_to_range o (a0 :: rest) size = cv -> cv <> CUnmod ->
-  print_arg_val o (match cv with CYes c _ => c | _ => a0 :: rest end) cols prev = Some (t, tmp, cols1, bb) ->
+  print_arg_val_f (S (S fu)) o (match cv with CYes c _ => c | _ => a0 :: rest end) cols prev = Some (t, tmp, cols1, bb) ->
   exists its inc,
     bb = false /\ tmp = len t /\
     Z.of_nat inc = (match cv with CYes _ kk => kk | _ => next_arg_offset (a0 :: rest) end) /\
@@ -1255,7 +1255,7 @@ Proof.
   assert (Hin : Forall (inrv zf zd) (a0 :: rest)) by (eapply Forall_impl; [|exact Hg]; exact (goodca_inrv o zf zd)).
   destruct cv as [|c kk|]; [| |congruence].
   - (* no conversion: one value *)
-    unfold print_arg_val in Hp. rewrite (pav_scalar o a0 rest cols prev 5 Hs0) in Hp.
+    rewrite (pav_scalar o a0 rest cols prev (S fu) Hs0) in Hp.
     destruct (print_scalar o a0 cols) as [[[t' w'] c']|] eqn:Eps; [|discriminate]. inversion Hp; subst.
     destruct (goodc_tok dec2f dec2d o zf zd a0 cols t tmp cols1 Hg0 Eps) as (Htk & Hnd & Hw).
     exists [IVal a0 t], 1%nat. split; [reflexivity|]. split; [exact Hw|].
@@ -1265,7 +1265,7 @@ Proof.
     destruct Hn5 as [Hn5 Hnl].
     destruct Hshape as [[[y Ec] Hrep]|(k & d & x & y & Ec & Hdr & Hhd & Hd0 & Hexj)]; subst c; cbn [hd] in *.
     + (* N x value *)
-      rewrite (print_range_const_eq (Z.of_nat n) a0 y cols prev ltac:(lia) Hs0) in Hp.
+      rewrite (print_range_const_eq fu (Z.of_nat n) a0 y cols prev ltac:(lia) Hs0) in Hp.
       destruct (print_scalar o a0 (cols + len (dec_nat (Z.of_nat n) ++ [120]))) as [[[t' w'] c']|] eqn:Eps;
         [|discriminate]. inversion Hp; subst.
       destruct (goodc_tok dec2f dec2d o zf zd a0 _ t' w' cols1 Hg0 Eps) as (Htk & Hnd & Hw).
@@ -1291,7 +1291,7 @@ Proof.
       { replace (Z.of_nat n - 1) with (Z.of_nat (n - 1)) by lia. rewrite Hex by lia. unfold last. f_equal. f_equal. lia. }
       assert (Hsec : wr k (x + 1 * d) = x + d).
       { replace 1 with (Z.of_nat 1) by reflexivity. rewrite Hex by lia. lia. }
-      destruct (print_range_delta o k d x (Z.of_nat n) y cols prev last Hon ltac:(lia) Hd0 Hsec Hlast)
+      destruct (print_range_delta fu o k d x (Z.of_nat n) y cols prev last Hon ltac:(lia) Hd0 Hsec Hlast)
         as (sp & t' & c' & Hsp & Hpr & Hshape).
       rewrite Hpr in Hp. inversion Hp; subst t' tmp c' bb. clear Hp.
       assert (Hslast : small_k k last).
@@ -1351,7 +1351,7 @@ Lemma print_iter a0 rest size prev t tmp cols cols1 bb cv :
     nth_error (a0 :: rest) (inc - 1) = ilast its.
 Proof.
   intros Hg Hlen _ Hcv Hnu Hp.
-  destruct (print_iter_sa a0 rest size prev t tmp cols cols1 bb cv (Forall_inv Hg)) as (its & inc & A & B & C & D & E & F & G & _);
+  destruct (print_iter_sa 4 a0 rest size prev t tmp cols cols1 bb cv (Forall_inv Hg)) as (its & inc & A & B & C & D & E & F & G & _);
     try assumption.
   - eapply Forall_impl; [|exact (Forall_inv_tail Hg)]. intros a Ha. now left.
   - exists its, inc. auto 10.
